@@ -15,6 +15,10 @@ use super::RecordMaybeUninit;
 /// Shadow of one byte of storage: `[state | flags, type hash lo, type hash hi, reserved]`.
 pub(super) type ShadowByte = [AtomicU8; 4];
 
+/// Shadow of the zero-size droppable values stored in a record (they cover no byte): each slot
+/// is `0` or `((offset + 1) << 16) | type hash`.
+pub(super) type ZeroSizeShadow = [AtomicU64; 8];
+
 const STATE_MASK: u8 = 0x03;
 const UNOWNED: u8 = 0;
 const OWNED: u8 = 1;
@@ -258,6 +262,33 @@ pub(super) fn on_access<T, const CAP: usize>(
         }
     }
 
+    if size == 0 && droppable {
+        // Zero-size value with a destructor: ownership is tracked by (offset, type)
+        let key = ((offset as u64 + 1) << 16) | hash as u64;
+        let slots = &record.zero_size;
+        let found = slots.iter().find(|s| s.load(Ordering::Relaxed) == key);
+        match access {
+            Access::Write => {
+                if found.is_some() {
+                    report(event(EventKind::StoreOverOwned));
+                } else if let Some(free) = slots.iter().find(|s| s.load(Ordering::Relaxed) == 0) {
+                    free.store(key, Ordering::Relaxed);
+                }
+            }
+            Access::Read => match found {
+                Some(slot) => slot.store(0, Ordering::Relaxed),
+                None => report(event(EventKind::UnownedAccess)),
+            },
+            Access::Get | Access::GetMut => {
+                if found.is_none() {
+                    report(event(EventKind::UnownedAccess));
+                }
+            }
+            Access::BufferDrop => {}
+        }
+        return;
+    }
+
     match access {
         Access::Write => {
             if owned_droppable > 0 {
@@ -310,6 +341,21 @@ pub(super) fn on_access<T, const CAP: usize>(
 pub(super) fn on_buffer_drop<const CAP: usize>(record: &RecordMaybeUninit<CAP>) {
     BUFFER_DROPS.fetch_add(1, Ordering::Relaxed);
     let base = record.data.as_ptr() as usize;
+    for slot in record.zero_size.iter() {
+        let key = slot.load(Ordering::Relaxed);
+        if key != 0 {
+            report(Event {
+                kind: EventKind::LeakAtBufferDrop,
+                access: Access::BufferDrop,
+                offset: (key >> 16) as usize - 1,
+                size: 0,
+                align: 1,
+                cap: CAP,
+                addr: base.wrapping_add((key >> 16) as usize - 1),
+                type_name: "<stored zero-size droppable value>",
+            });
+        }
+    }
     let mut i = 0;
     while i < CAP {
         let cell = &record.shadow[i];
